@@ -7,3 +7,5 @@ import DeepModel.Props.C12
 #print axioms C12.c12_error_keeps
 #print axioms C12.c12_polling_continues
 #print axioms C12.c12_lock_needed
+#print axioms C12.c12_partial_update
+#print axioms C12.c12_progress
